@@ -236,6 +236,102 @@ func UniqueCuts(p *core.Prog, r *core.Report) {
 	default:
 		r.Ok("UNIQUE-CUTS", key, p.Pos(sortPos), "one cut per distinct position")
 	}
+	// the wrap-around piece of a circular record runs from the last cut to the first one: with a single
+	// distinct cut the two are the same position, Slice(seq, h, h) is an empty piece (and the GenBank
+	// writer panics on it) where the record re-origined at h is due. Reading the last element of the
+	// sorted list as a piece boundary must be dominated by a test that there are at least two cuts.
+	var wrap ast.Node
+	ast.Inspect(fd.Body, func(n ast.Node) bool {
+		ix, ok := n.(*ast.IndexExpr)
+		if !ok || wrap != nil || core.ObjOf(info, ix.X) != sorted || ix.Pos() < sortPos {
+			return true
+		}
+		be, ok := ast.Unparen(ix.Index).(*ast.BinaryExpr)
+		if !ok || be.Op != token.SUB {
+			return true
+		}
+		lc, isLen := ast.Unparen(be.X).(*ast.CallExpr)
+		one, isOne := core.ConstInt(info, be.Y)
+		if isLen && isOne && one == 1 && core.IsBuiltin(info, lc, "len") && len(lc.Args) == 1 && core.ObjOf(info, lc.Args[0]) == sorted {
+			wrap = ix
+		}
+		return true
+	})
+	wkey := "main.split|wrap"
+	if wrap == nil {
+		r.Note("UNIQUE-CUTS", wkey, p.Pos(sortPos), "the last cut is not read as a piece boundary")
+		return
+	}
+	fl := core.NewFlow(info, fd.Body)
+	lenAtom := func(e ast.Expr) (op token.Token, k int64, ok bool) {
+		be, isB := ast.Unparen(e).(*ast.BinaryExpr)
+		if !isB {
+			return 0, 0, false
+		}
+		lc, isLen := ast.Unparen(be.X).(*ast.CallExpr)
+		c, isC := core.ConstInt(info, be.Y)
+		if !isLen || !isC || !core.IsBuiltin(info, lc, "len") || len(lc.Args) != 1 || core.ObjOf(info, lc.Args[0]) != sorted {
+			return 0, 0, false
+		}
+		return be.Op, c, true
+	}
+	reachedUnguarded := false
+	// state 1: at least two cuts established on this path
+	core.Scan(fl, fl.Entry(), 0, core.Stepper[int]{
+		Node: func(st int, n ast.Node) (int, bool) {
+			hit := false
+			ast.Inspect(n, func(m ast.Node) bool {
+				if m == wrap {
+					hit = true
+				}
+				return !hit
+			})
+			if hit {
+				if st == 0 {
+					reachedUnguarded = true
+				}
+				return st, true
+			}
+			if as, ok := n.(*ast.AssignStmt); ok {
+				for _, l := range as.Lhs {
+					if core.ObjOf(info, l) == sorted {
+						return 0, false // the list is rebuilt: what was known about its length is gone
+					}
+				}
+			}
+			return st, false
+		},
+		Edge: func(st int, cond ast.Expr, taken bool) int {
+			core.Facts(cond, taken, func(atom ast.Expr, val bool) {
+				op, k, ok := lenAtom(atom)
+				if !ok {
+					return
+				}
+				two := false
+				switch op {
+				case token.EQL:
+					two = !val && k == 1 && false // len != 1 alone allows 0: not enough
+				case token.GTR:
+					two = val && k >= 1
+				case token.GEQ:
+					two = val && k >= 2
+				case token.LSS:
+					two = !val && k >= 2
+				case token.LEQ:
+					two = !val && k >= 1
+				}
+				if two {
+					st = 1
+				}
+			})
+			return st
+		},
+	})
+	if reachedUnguarded {
+		r.Bad("UNIQUE-CUTS", wkey, p.Pos(wrap.Pos()), "the last cut is read as the start of the wrap-around piece on a path where nothing establishes that there are two distinct cuts: two regions that share their head on a circular record (a gene and its CDS) give the single cut h, the piece Slice(seq, h, h) is empty instead of the record re-origined at h, and GenBank output panics on it")
+	} else {
+		r.Ok("UNIQUE-CUTS", wkey, p.Pos(wrap.Pos()), "the wrap-around piece is cut only when there are at least two distinct cuts")
+	}
 }
 
 // adjacentDedup: after the sort there is a loop that compares an element of
